@@ -541,7 +541,9 @@ def gen_line_seq(rng, maxlen=12):
         elif k == "T":
             texts.append(("%d" % rng.randint(0, 30)).encode())
         elif k == "J":
-            texts.append(rng.choice([b"junk", b"3\t4", b"chain 1 2", b"1\t2\t3\t4", b"-5", b"chainx", b" ", b"3\t\t4", b"x\ty\tz"]))
+            texts.append(rng.choice([b"junk", b"3\t4", b"chain 1 2", b"1\t2\t3\t4", b"-5", b"chainx", b" ", b"3\t\t4", b"x\ty\tz",
+                                     # carriage returns that are NOT part of a CRLF terminator: the line keeps them and is unparsable
+                                     b"\r\r", b"7\r\r", b"\r7", b"7\r8", b"3\t1\t2\r\r"]))
         else:
             texts.append(rng.choice([b"\xff\xfe", b"3\t\xc0\xaf\t1", b"\xed\xa0\x80", b"ok\xf5"]))
     return kinds, texts
@@ -555,6 +557,8 @@ def py_sections_spec(kinds, texts):
         if k == "U":
             out.append(("E", "utf8")); return out
         if k == "J":
+            if t.endswith(b"\r"):
+                t = t[:-1]   # followed by LF (sections_case sees to that) the last CR belongs to the terminator
             out.append(("E", "badline:" + ("h" if t.startswith(b"chain") else "d") + ":" + xtok(t))); return out
         if k == "B":
             if cur is not None:
@@ -576,7 +580,7 @@ def py_sections_spec(kinds, texts):
 
 def sections_case(rng, kinds, texts):
     eol = b"\n"
-    data = eol.join(texts) + (eol if (texts and rng.random() < 0.7) else b"")
+    data = eol.join(texts) + (eol if (texts and (rng.random() < 0.7 or texts[-1].endswith(b"\r"))) else b"")
     if texts and texts[-1] == b"" and not data.endswith(b"\n\n") and len(texts) > 0:
         # a final blank line only exists if it is terminated
         data = eol.join(texts) + eol
